@@ -14,7 +14,16 @@
 //     `Before` = `<`, `After` = `>`; `url.URL` is an opaque record whose `String()` is a field;
 //   * package-level variables that the functions read become fields of `Env`; `time.Now()` is `env.timeNow`;
 //   * interface-typed fields become records of functions, function-typed fields `Option`s of functions;
-//   * only the structure fields the translated functions use are generated.
+//   * only the structure fields the translated functions use are generated;
+//   * three packages are translated: the root package (Generated/Trans.lean), xmlenc (Generated/TransXmlenc.lean) and samlsp
+//     (Generated/TransSamlsp.lean); samlsp sees the root package's types through a real `types.Package` (the root is type-checked
+//     first) and the root's struct declarations under their own names;
+//   * bytes are `UInt8`; `make([]T, n)`, `xs[i] = v` (only on a slice made by `make` here and never aliased: `freshSlices`),
+//     `xs[:n]`, `xs[n:]`, `append(a, b...)`, `a % b`, `a / b`, `byte(x)`, `int(b)` have checked counterparts in GoSem (a bad
+//     index, a negative length, a zero divisor are panics); `int` is unbounded (`Int`): no wrap-around is modelled;
+//   * an HTTP handler (spec flag `trace`) returns no value in Go: its definition returns the list of calls that were handed the
+//     `http.ResponseWriter`, in order (`List Event`: the callee as written, its string / error / status arguments), each event
+//     appended before the call is made; `r.Form.Get(k)` / `r.ParseForm()` are the `Env` functions `formGet` / `parseForm`.
 //
 // Anything outside the subset is recorded in `transFailures` (an obligation of Props/TransFacts says
 // the list is empty), never guessed.
@@ -24,6 +33,7 @@ import (
 	"fmt"
 	"go/ast"
 	"go/constant"
+	"go/parser"
 	"go/printer"
 	"io"
 	"go/token"
@@ -67,6 +77,7 @@ type transSpec struct {
 	yieldTy string // Lean type of that local
 	state   string // a local pointer variable of the translated range that is modified through: it becomes the function's state (like a modified receiver) and its result
 	as      string // name of the generated definition (default: the Go function's name)
+	trace   bool   // an HTTP handler without results: the definition returns the list of effects on the ResponseWriter, in order
 }
 
 type trans struct {
@@ -89,6 +100,7 @@ type trans struct {
 	bodies   map[string]string
 	pre      []string
 	tmpN     int
+	foreign  string            // name of the imported package of this repository whose types are used unqualified ("saml" in samlsp)
 	externs  map[string]bool   // functions kept as parameters (fields of Env)
 	extSigs  map[string]string // Env field -> Lean type
 	extOrder []string
@@ -103,6 +115,8 @@ type funcCtx struct {
 	mutRecv bool
 	mutable map[string]bool
 	resultIsSlice []bool
+	trace   bool
+	writers map[string]bool // parameters of type http.ResponseWriter
 	freshSl map[string]bool // locals made by `make` here and never aliased: element writes are value updates
 	results []ast.Expr
 	retErr  bool
@@ -168,6 +182,13 @@ func (t *trans) leanType(e ast.Expr) string {
 			return "Element"
 		case "x509.Certificate":
 			return "Certificate"
+		case "http.ResponseWriter":
+			return "ResponseWriter"
+		case "http.Cookie":
+			return "Cookie"
+		}
+		if id, ok := x.X.(*ast.Ident); ok && t.foreign != "" && id.Name == t.foreign {
+			return t.leanType(ast.NewIdent(x.Sel.Name))
 		}
 		t.failf("unsupported type %s", t.src(x))
 		return "Unit"
@@ -353,6 +374,12 @@ func (t *trans) expr(e ast.Expr) string {
 				if id.Name == "os" && x.Sel.Name == "ErrNotExist" {
 					return `(some "os.ErrNotExist")`
 				}
+				if id.Name == "http" && x.Sel.Name == "ErrNoCookie" {
+					return `(some "http.ErrNoCookie")`
+				}
+				if id.Name == "http" && x.Sel.Name == "StatusFound" {
+					return "(302 : Int)"
+				}
 				t.failf("%s: unsupported package-qualified name %s", t.cur.name, t.src(x))
 				return "default"
 			}
@@ -397,6 +424,9 @@ func (t *trans) expr(e ast.Expr) string {
 			return "(← sliceFrom " + t.expr(x.X) + " " + t.expr(x.Low) + ")"
 		}
 	case *ast.CompositeLit:
+		if at, ok := x.Type.(*ast.ArrayType); ok && len(x.Elts) == 0 {
+			return "([] : (List " + t.leanType(at.Elt) + "))"
+		}
 		// a value of an error type (`ErrBadStatus{…}`): only its being an error matters to the callers we translate
 		if id, ok := x.Type.(*ast.Ident); ok && isErrorTypeName(id.Name) {
 			return "(some " + leanStr(id.Name) + ")"
@@ -452,6 +482,13 @@ func (t *trans) binary(x *ast.BinaryExpr) string {
 		}
 		return "(" + t.expr(x.X) + op + t.expr(x.Y) + ")"
 	case token.LSS, token.GTR, token.LEQ, token.GEQ, token.ADD, token.SUB, token.MUL:
+		if x.Op == token.ADD {
+			if tv, ok := t.info.Types[x.X]; ok && tv.Type != nil {
+				if b, ok := tv.Type.Underlying().(*types.Basic); ok && b.Info()&types.IsString != 0 {
+					return "(" + t.expr(x.X) + " ++ " + t.expr(x.Y) + ")"
+				}
+			}
+		}
 		return "(" + t.expr(x.X) + " " + x.Op.String() + " " + t.expr(x.Y) + ")"
 	case token.REM:
 		if t.isIntExpr(x.X) && t.isIntExpr(x.Y) {
@@ -493,7 +530,69 @@ func (t *trans) args(as []ast.Expr) string {
 	return strings.Join(s, " ")
 }
 
+// effectCall: in a traced handler, a call that is handed the ResponseWriter is an effect: it is appended to the trace (name and
+// the string / error / status arguments) before the call itself is made
+func (t *trans) effectCall(c *ast.CallExpr) (handled bool, value string) {
+	if t.cur == nil || !t.cur.trace {
+		return false, ""
+	}
+	hasW := false
+	for _, a := range c.Args {
+		if id, ok := a.(*ast.Ident); ok && t.cur.writers[id.Name] {
+			hasW = true
+		}
+	}
+	if !hasW {
+		return false, ""
+	}
+	name := t.src(c.Fun)
+	if sel, ok := c.Fun.(*ast.SelectorExpr); ok {
+		if sp, ok := t.specs[sel.Sel.Name]; ok && sp.trace {
+			// another translated handler: its effects follow
+			t.need(sel.Sel.Name)
+			recv := t.expr(sel.X)
+			t.pre = append(t.pre, "trace' := trace' ++ (← "+sel.Sel.Name+" env "+recv+" "+t.args(c.Args)+")")
+			return true, "()"
+		}
+	}
+	// the recorded arguments: strings, errors and the redirect status (by the callee's parameter types where they are known)
+	var sig *types.Signature
+	if tv, ok := t.info.Types[c.Fun]; ok && tv.Type != nil {
+		sig, _ = tv.Type.Underlying().(*types.Signature)
+	}
+	var evArgs []string
+	for i, a := range c.Args {
+		if id, ok := a.(*ast.Ident); ok && t.cur.writers[id.Name] {
+			continue
+		}
+		if t.src(a) == "http.StatusFound" {
+			evArgs = append(evArgs, `"302"`)
+			continue
+		}
+		ty := ""
+		if sig != nil && i < sig.Params().Len() {
+			ty = sig.Params().At(i).Type().String()
+		} else if tv, ok := t.info.Types[a]; ok && tv.Type != nil {
+			ty = tv.Type.String()
+		}
+		switch ty {
+		case "string":
+			evArgs = append(evArgs, t.expr(a))
+		case "error":
+			evArgs = append(evArgs, "(errStr "+t.expr(a)+")")
+		}
+	}
+	t.pre = append(t.pre, "trace' := trace' ++ [⟨"+leanStr(name)+", ["+strings.Join(evArgs, ", ")+"]⟩]")
+	if name == "http.Redirect" {
+		return true, "()"
+	}
+	return false, ""
+}
+
 func (t *trans) call(c *ast.CallExpr) string {
+	if h, v := t.effectCall(c); h {
+		return v
+	}
 	switch f := c.Fun.(type) {
 	case *ast.Ident:
 		switch f.Name {
@@ -554,6 +653,28 @@ func (t *trans) call(c *ast.CallExpr) string {
 			return "env.timeNow"
 		case "strconv.Itoa":
 			return "(itoa " + t.expr(c.Args[0]) + ")"
+		case "strings.HasPrefix":
+			return "(hasPrefix " + t.expr(c.Args[0]) + " " + t.expr(c.Args[1]) + ")"
+		case "strings.TrimPrefix":
+			return "(trimPrefix " + t.expr(c.Args[0]) + " " + t.expr(c.Args[1]) + ")"
+		}
+		if f.Sel.Name == "Get" && len(c.Args) == 1 {
+			if inner, ok := f.X.(*ast.SelectorExpr); ok && inner.Sel.Name == "Form" {
+				t.addExtern("formGet", "HTTPRequest → String → String")
+				return "(env.formGet " + t.derefd(inner.X) + " " + t.expr(c.Args[0]) + ")"
+			}
+		}
+		if f.Sel.Name == "Cookies" && len(c.Args) == 0 {
+			t.addExtern("cookies", "HTTPRequest → (List (Option Cookie))")
+			return "(env.cookies " + t.derefd(f.X) + ")"
+		}
+		if f.Sel.Name == "Cookie" && len(c.Args) == 1 {
+			t.addExtern("cookie", "HTTPRequest → String → Outcome ((Option Cookie) × GoError)")
+			return "(← env.cookie " + t.derefd(f.X) + " " + t.expr(c.Args[0]) + ")"
+		}
+		if f.Sel.Name == "ParseForm" && len(c.Args) == 0 {
+			t.addExtern("parseForm", "(Option HTTPRequest) → Outcome GoError")
+			return "(← env.parseForm " + t.expr(f.X) + ")"
 		}
 		switch f.Sel.Name {
 		case "Add":
@@ -779,6 +900,9 @@ func (t *trans) varName(name string) string {
 }
 
 func (t *trans) retExpr(results []ast.Expr) string {
+	if t.cur.trace {
+		return "trace'"
+	}
 	var v string
 	switch len(results) {
 	case 0:
@@ -1228,6 +1352,17 @@ func (t *trans) function(name string) {
 	if sp.state != "" {
 		ctx.mutRecv = true
 	}
+	if sp.trace {
+		ctx.trace = true
+		ctx.writers = map[string]bool{}
+		for _, f := range fd.Type.Params.List {
+			if t.src(f.Type) == "http.ResponseWriter" {
+				for _, n := range f.Names {
+					ctx.writers[n.Name] = true
+				}
+			}
+		}
+	}
 	t.cur = ctx
 	var params []string
 	params = append(params, "(env : Env)")
@@ -1362,6 +1497,9 @@ func (t *trans) function(name string) {
 	} else {
 		res = t.resultType(fd.Type.Results)
 	}
+	if sp.trace {
+		res = "(List Event)"
+	}
 	if sp.mutRecv {
 		rt := fd.Recv.List[0].Type
 		if st, ok := rt.(*ast.StarExpr); ok {
@@ -1374,6 +1512,9 @@ func (t *trans) function(name string) {
 	var o out
 	if sp.mutRecv || sp.state != "" {
 		o.line(1, "let mut "+ctx.recv+" := "+ctx.recv)
+	}
+	if sp.trace {
+		o.line(1, "let mut trace' : List Event := []")
 	}
 	var paramNames []string
 	for _, f := range fd.Type.Params.List {
@@ -1498,6 +1639,14 @@ func (t *trans) leanTypeOf(ty types.Type, where string) string {
 		if n == "error" {
 			return "GoError"
 		}
+		if x.Obj().Pkg() != nil && x.Obj().Pkg().Path() == "net/http" {
+			switch n {
+			case "Cookie":
+				return "Cookie"
+			case "Request":
+				return "HTTPRequest"
+			}
+		}
 		return t.leanType(ast.NewIdent(n))
 	}
 	t.failf("%s: unsupported type of a local: %s", where, ty.String())
@@ -1528,7 +1677,7 @@ func translate(repo string, p *pkgFiles, outPath string) {
 	}
 	rootExterns := map[string]bool{"validateSignature": true, "decryptElement": true, "unmarshalElement": true, "findChildren": true,
 		"findChild": true, "getIDPSigningCerts": true, "getCertBasedOnFingerprint": true, "parseCert": true}
-	translatePkg(p, outPath, "saml", "SamlVerif.Trans", rootSpecs, rootExterns)
+	rootPkg := translatePkg(p, outPath, "saml", "SamlVerif.Trans", rootSpecs, rootExterns, nil)
 	xSpecs := []transSpec{
 		{fn: "appendPadding"},
 		{fn: "stripPadding"},
@@ -1537,10 +1686,55 @@ func translate(repo string, p *pkgFiles, outPath string) {
 	if outPath != "" {
 		xOut = filepath.Join(filepath.Dir(outPath), "TransXmlenc.lean")
 	}
-	translatePkg(parseDir(filepath.Join(repo, "xmlenc")), xOut, "xmlenc", "SamlVerif.TransX", xSpecs, map[string]bool{})
+	translatePkg(parseDir(filepath.Join(repo, "xmlenc")), xOut, "xmlenc", "SamlVerif.TransX", xSpecs, map[string]bool{}, nil)
+	spSpecs := []transSpec{
+		{fn: "CreateSessionFromAssertion", recv: "Middleware", trace: true},
+		{fn: "ServeACS", recv: "Middleware", trace: true},
+		{fn: "GetTrackedRequests", recv: "CookieRequestTracker"},
+		{fn: "GetTrackedRequest", recv: "CookieRequestTracker"},
+	}
+	spOut := ""
+	if outPath != "" {
+		spOut = filepath.Join(filepath.Dir(outPath), "TransSamlsp.lean")
+	}
+	translatePkg(parseDir(filepath.Join(repo, "samlsp")), spOut, "samlsp", "SamlVerif.TransM", spSpecs, map[string]bool{"ParseResponse": true},
+		&foreignPkg{name: "saml", path: "github.com/crewjam/saml", pkg: rootPkg, p: p})
 }
 
-func translatePkg(p *pkgFiles, outPath string, pkgName string, ns string, specs []transSpec, externs map[string]bool) {
+// stubHTTP: the few declarations of net/http the translated samlsp functions mention, so that go/types can type their uses
+// (the standard library's export data is not read: the translator runs on syntax plus these signatures)
+func stubHTTP() *types.Package {
+	const src = `package http
+type Cookie struct { Name, Value string }
+type Values map[string][]string
+func (v Values) Get(k string) string
+type Request struct { Form Values }
+func (r *Request) Cookies() []*Cookie
+func (r *Request) Cookie(name string) (*Cookie, error)
+func (r *Request) ParseForm() error
+type ResponseWriter interface{ WriteHeader(int) }
+var ErrNoCookie error
+const StatusFound = 302
+func Redirect(w ResponseWriter, r *Request, url string, code int)
+`
+	fset := token.NewFileSet()
+	f, err := parser.ParseFile(fset, "http.go", src, 0)
+	if err != nil {
+		panic(err)
+	}
+	conf := types.Config{Error: func(error) {}}
+	pkg, _ := conf.Check("net/http", fset, []*ast.File{f}, nil)
+	return pkg
+}
+
+type foreignPkg struct {
+	name string // the name it is imported under
+	path string
+	pkg  *types.Package
+	p    *pkgFiles
+}
+
+func translatePkg(p *pkgFiles, outPath string, pkgName string, ns string, specs []transSpec, externs map[string]bool, dep *foreignPkg) *types.Package {
 	t := &trans{p: p, structs: map[string]*ast.StructType{}, ifaces: map[string]*ast.InterfaceType{}, named: map[string]ast.Expr{},
 		funcs: map[string]*ast.FuncDecl{}, specs: map[string]transSpec{}, usedF: map[string]map[string]bool{}, usedM: map[string]map[string]bool{},
 		envVars: map[string]string{}, done: map[string]bool{}, bodies: map[string]string{},
@@ -1584,8 +1778,49 @@ func translatePkg(p *pkgFiles, outPath string, pkgName string, ns string, specs 
 		}
 	}
 	t.info = &types.Info{Types: map[ast.Expr]types.TypeAndValue{}, Uses: map[*ast.Ident]types.Object{}, Defs: map[*ast.Ident]types.Object{}}
-	conf := types.Config{Importer: &fakeImporter{pkgs: map[string]*types.Package{}}, Error: func(error) {}, DisableUnusedImportCheck: true}
-	_, _ = conf.Check(pkgName, p.fset, files, t.info)
+	imp := &fakeImporter{pkgs: map[string]*types.Package{}}
+	if dep != nil {
+		// the types of the imported package of this repository are real; its declarations are visible under their own names
+		imp.pkgs[dep.path] = dep.pkg
+		imp.pkgs["net/http"] = stubHTTP()
+		t.foreign = dep.name
+		for _, fn := range sortedFileNames(dep.p) {
+			for _, d := range dep.p.files[fn].Decls {
+				switch g := d.(type) {
+				case *ast.GenDecl:
+					if g.Tok != token.TYPE {
+						continue
+					}
+					for _, sp := range g.Specs {
+						ts := sp.(*ast.TypeSpec)
+						switch u := ts.Type.(type) {
+						case *ast.StructType:
+							if _, own := t.structs[ts.Name.Name]; !own {
+								t.structs[ts.Name.Name] = u
+							}
+						case *ast.InterfaceType:
+							if _, own := t.ifaces[ts.Name.Name]; !own {
+								t.ifaces[ts.Name.Name] = u
+							}
+						default:
+							if _, own := t.named[ts.Name.Name]; !own {
+								t.named[ts.Name.Name] = ts.Type
+							}
+						}
+					}
+				case *ast.FuncDecl:
+					if g.Recv != nil {
+						k := recvName(g) + "." + g.Name.Name
+						if _, own := t.funcs[k]; !own {
+							t.funcs[k] = g
+						}
+					}
+				}
+			}
+		}
+	}
+	conf := types.Config{Importer: imp, Error: func(error) {}, DisableUnusedImportCheck: true}
+	tpkg, _ := conf.Check(pkgName, p.fset, files, t.info)
 
 	key := func(s transSpec) string {
 		if s.as != "" {
@@ -1707,6 +1942,11 @@ func translatePkg(p *pkgFiles, outPath string, pkgName string, ns string, specs 
 	}
 	sort.Strings(snames)
 	for _, n := range snames {
+		_, isS := t.structs[n]
+		_, isI := t.ifaces[n]
+		if !isS && !isI {
+			continue // (a type of GoSem: Cookie)
+		}
 		emitS(n, map[string]bool{})
 	}
 	// Env: package-level variables and the functions that stay outside the translation
@@ -1733,12 +1973,13 @@ func translatePkg(p *pkgFiles, outPath string, pkgName string, ns string, specs 
 	b.WriteString("end " + ns + "\n")
 	if outPath == "" {
 		fmt.Print(b.String())
-		return
+		return tpkg
 	}
 	if err := os.WriteFile(outPath, []byte(b.String()), 0o644); err != nil {
 		fmt.Fprintln(os.Stderr, err)
 		os.Exit(1)
 	}
+	return tpkg
 }
 
 // promotedFieldType: the type expression of a field reached through embedded (anonymous) struct fields
